@@ -48,7 +48,8 @@ REQUIRED = ["ctl_runs", "ctl_deferred_flushes", "ctl_partial_writes",
             "iow_cases", "iow_partial_writes", "iow_eagain", "iow_fatal",
             "iow_fast_sends", "iow_streams_compared",
             "iow_connect_with_bytes_already_queued", "ctl_message_objects_sent",
-            "iow_sends_on_a_closed_worker"]
+            "iow_sends_on_a_closed_worker",
+            "ctl_connections_disconnected_again_by_a_down_listener"]
 TIMEOUT = {"quick": 1500, "thorough": 10800}
 
 
@@ -107,8 +108,13 @@ class NexusStub (object):
     self.disconnects = []
   def getConnection (self, dpid): return None
   def _disconnect (self, dpid): self.disconnects.append(dpid)
+  reclose = False
   def raiseEventNoErrors (self, ev, *a, **kw):
     self.downs.append(a[0] if a else None)
+    if self.reclose and a and len(self.downs) < 6:
+      # a listener that drops the connection it is told about once more
+      self.reclosed = getattr(self, "reclosed", 0) + 1
+      a[0].disconnect()
   raiseEvent = raiseEventNoErrors
 
 
@@ -170,6 +176,7 @@ def run_ctl (scn, schedule, policy, seed):
   obs = dict(socks=[], cons=[], expected=[], sent_while_up=[], raised=[],
              nexus=NexusStub(), con_downs=[], ds=None, violations=[],
              callers=[])
+  obs["nexus"].reclose = scn.get("reclose") == "nexus"
   ncons = scn["ncons"]
 
   def sender_quiet ():
@@ -218,7 +225,11 @@ def run_ctl (scn, schedule, policy, seed):
       del con.send
       con.dpid = 100 + ci
       con.ofnexus = obs["nexus"]
-      def down (e, ci=ci): obs["con_downs"][ci] += 1
+      def down (e, ci=ci, con=con):
+        obs["con_downs"][ci] += 1
+        if scn.get("reclose") == "con" and obs["con_downs"][ci] < 6:
+          obs["reclosed"] = obs.get("reclosed", 0) + 1
+          con.disconnect()
       con.addListener(of_01.ConnectionDown, down)
     counts = [0] * ncons
     for op in scn["program"]:
@@ -381,6 +392,8 @@ def do_ctl (scn, schedule, policy, seed, rep):
     rep.inconclusive_because("wall-clock watchdog in a C20 schedule")
     return None
   rep.count("ctl_runs")
+  nre = obs.get("reclosed", 0) + getattr(obs["nexus"], "reclosed", 0)
+  if nre: rep.count("ctl_connections_disconnected_again_by_a_down_listener", nre)
   if obs.get("objects_sent"): rep.count("ctl_message_objects_sent", obs["objects_sent"])
   ds = obs["ds"]
   nd = sum(1 for l in obs["callers"] if ds is not None and l == ds.lid)
@@ -449,7 +462,9 @@ def gen_ctl_random (rng, n):
         else: sc.append(rng.choice(["fatal", "fatal", "fatal:EPIPE", "fatal:ETIMEDOUT",
                                     "fatal:EHOSTUNREACH", "fatal:ENOTCONN"]))
       scripts.append(sc)
-    yield dict(ncons=ncons, program=prog, scripts=scripts)
+    scn = dict(ncons=ncons, program=prog, scripts=scripts)
+    if rng.random() < 0.25: scn["reclose"] = rng.choice(["con", "nexus"])
+    yield scn
 
 
 CTL_DFS = [
@@ -474,6 +489,12 @@ CTL_DFS = [
   dict(ncons=2, program=[["send", 0, 40], ["send", 1, 40], ["close", 0],
                          ["send", 1, 9]],
        scripts=[["all", 5, "eagain_blocked"], ["all", 6, 3]]),
+  # ConnectionDown listeners that disconnect the connection once more
+  dict(ncons=1, program=[["send", 0, 20], ["send", 0, 30], ["close", 0]],
+       scripts=[["all", 5, "fatal"]], reclose="con"),
+  dict(ncons=2, program=[["send", 0, 20], ["send", 1, 30], ["send", 0, 9], ["close", 0],
+                         ["send", 1, 12]],
+       scripts=[["all", 5, "fatal:EPIPE"], ["all", 0, 7]], reclose="nexus"),
 ]
 
 
